@@ -237,19 +237,40 @@ pub fn oracle(sc: &Scenario, out: &Outcome) -> Vec<Violation> {
             vs.push(v("C14.config-changed", format!("C14.config-changed:{}", ctx), "an invalid file changed the configuration reported by get_config()".into()));
         }
     }
-    // connections opened / closed inside the reload window
-    for e in log.iter().filter(|e| e.seq > *r_start && e.seq < *r_done) {
+    // connections closed by the pooler from the reload on (nothing else in these scenarios makes the pooler close
+    // a server connection: servers are healthy, clients finish their transactions, lifetimes are long). A pool
+    // that is rebuilt although nothing it is built from changed loses its connections (and its bans) only when
+    // the last client lets go of the old pool object, i.e. after the reload window.
+    for e in log.iter().filter(|e| e.seq > *r_start) {
         match &e.rec {
-            Rec::BClose { conn, by } if by == "peer" => {
+            // (the pooler closes a server connection by Terminate, which the backend logs as its own close,
+            // or by dropping it; the backends of these scenarios never close on their own)
+            Rec::BClose { conn, .. } => {
                 let srv = conn_server(log, *conn);
                 let host = srv.split(':').next().unwrap_or("").to_string();
-                // a pool whose definition is unchanged keeps its connections
-                let unchanged_pools: Vec<&String> = old_map.iter().filter(|(p, h)| new_map.get(*p) == Some(h)).map(|(_, h)| h).collect();
-                let pool_def_same = match new {
-                    "password-changed" | "pool-size-changed" | "mode-changed" => host != "pg-a",
-                    _ => true,
+                // a pool whose definition (its own section of the file) is unchanged keeps its connections
+                let section = |toml: &str, pool: &str| -> String {
+                    let head = format!("[pools.{}", pool);
+                    let mut keep = false;
+                    let mut out = String::new();
+                    for line in toml.lines() {
+                        if line.starts_with('[') {
+                            keep = line.starts_with(&format!("{}]", head)) || line.starts_with(&format!("{}.", head));
+                        }
+                        if keep {
+                            out.push_str(line);
+                            out.push('\n');
+                        }
+                    }
+                    out
                 };
-                if !valid || (unchanged_pools.contains(&&host) && pool_def_same) {
+                let (old_toml, new_toml) = (variant(old).0, variant(new).0);
+                let unchanged_hosts: Vec<&String> = old_map
+                    .iter()
+                    .filter(|(p, h)| new_map.get(*p) == Some(h) && section(&old_toml, p) == section(&new_toml, p))
+                    .map(|(_, h)| h)
+                    .collect();
+                if !valid || unchanged_hosts.contains(&&host) {
                     vs.push(v(
                         "C14.connection-closed",
                         format!("C14.connection-closed:{}", ctx),
